@@ -2,7 +2,7 @@
     (Gen/LockTable.v is rewritten by tools/locktable on every run), evaluated
     by vm_compute, and the two liftings instantiated with it. *)
 From Coq Require Import List String Bool Arith.
-From AGH Require Import Base.Conc Model.Guards Proofs.Conc Proofs.LockTable Proofs.LockTablePairs Gen.LockTable.
+From AGH Require Import Base.Conc Model.Guards Proofs.Conc Proofs.LockTable Proofs.LockTablePairs Proofs.LockTableWhole Gen.LockTable.
 Import ListNotations.
 Local Open Scope string_scope.
 Local Open Scope list_scope.
@@ -77,6 +77,50 @@ Lemma lock_cycles_listed :
   forall c, incl c lock_order -> cycle c ->
   exists o, In o c /\ listed known_keys (order_key o) = true.
 Proof. exact (only_listed_cycles (rank_of ranks) known_keys lock_order order_ranked_unfolded). Qed.
+
+(** Whole-table form (round 3).  Threads conform to the WHOLE extracted table,
+    listed findings included. *)
+Lemma accesses_guarded_unfolded :
+  forallb (access_ok_ro ro) (checked known_keys accesses) = true.
+Proof. vm_compute. reflexivity. Qed.
+
+(** A deadlock is reachable only if some thread goes through a listed pair: its
+    program acquires [l] while holding [y] and every pair (y, l) of the
+    extracted relation is a listed finding. *)
+Lemma deadlock_goes_through_listed_pair :
+  forall progs, Forall (fun p => conforms_order lock_order [] p = true) progs ->
+  forall s, reachable (init progs) s -> deadlocked s ->
+  exists p, In p progs /\ uses_listed known_keys lock_order [] p.
+Proof. exact (deadlock_uses_listed_pair (rank_of ranks) known_keys lock_order order_ranked_unfolded). Qed.
+
+(** Nothing listed (the case of the current source): any number of threads
+    conforming to the whole extracted table, any schedule: no race, no
+    deadlock; and the extracted acquired-while-held relation is acyclic. *)
+Definition current_source_safe_statement : Prop := whole_table_safe_statement accesses lock_order.
+
+Lemma current_source_safe_both :
+  (known_keys = [] -> current_source_safe_statement) /\
+  (if nothing_listed known_keys then current_source_safe_statement else True).
+Proof.
+  exact (whole_table_safe_unless_listed ro (rank_of ranks) known_keys accesses lock_order
+           accesses_guarded_unfolded order_ranked_unfolded).
+Qed.
+
+Lemma current_source_safe : known_keys = [] -> current_source_safe_statement.
+Proof. exact (proj1 current_source_safe_both). Qed.
+
+Lemma current_source_safe_now :
+  if nothing_listed known_keys then current_source_safe_statement else True.
+Proof. exact (proj2 current_source_safe_both). Qed.
+
+(** Non-vacuity on the real table: a thread shaped like POST /control/clients/add
+    conforms to the whole table, accesses and order. *)
+Example conforming_whole_thread :
+  let p := [Acq "home.homeContext.controlLock" W; Acq "client.Storage.mu" W;
+            Wr "client.index.nameToUID"; Rel "client.Storage.mu" W;
+            Rel "home.homeContext.controlLock" W] in
+  conforms accesses [] p = true /\ conforms_order lock_order [] p = true.
+Proof. vm_compute. split; reflexivity. Qed.
 
 (** Non-vacuity on the real table: a thread shaped like POST /control/clients/add
     (control lock, client-storage mutex, update an index map, release) conforms. *)
